@@ -63,6 +63,8 @@ class Write:
 
     def __repr__(self):
         qs = f" ∀{self.q[0][1]}<{self.q[1]}" if self.q else ""
+        if self.kind == "loop":
+            return f"LOOP{qs} {{" + " | ".join("if " + show_pc(c) + ": " + repr(ws) for c, ws, _ in self.payload) + "}"
         return f"W[{self.start}..{self.end}){qs} {self.kind}:{self.payload!r}"
 
 
@@ -176,7 +178,7 @@ class Interp:
         if k == "tuple":
             return TupV([self.symbolic(x, name + (i,), elem) for i, x in enumerate(t["elems"])])
         if k == "dyn":
-            return DynV(sname, t["trait"])
+            return DynV((sname, elem) if elem else sname, t["trait"])
         if k == "adt":
             d = t["def"]
             if d in ("std::borrow::Cow", "std::boxed::Box"):
@@ -201,6 +203,7 @@ class Interp:
                 if not adt["is_enum"]:
                     v = adt["variants"][0]
                     return StructV(d, v["name"], {f["name"]: self.symbolic(f["t"], name + (f["name"],), elem) for f in v["fields"]})
+                return EnumV(d, (tuple(name), elem))
             return Opaque("adt " + t["s"])
         return Opaque("type " + t["s"])
 
@@ -511,6 +514,10 @@ class Interp:
             if isinstance(v, RefV):
                 v = self.read_loc(st, v.key, v.path)
             return self.match_pat(st, pat["sub"], v)
+        if k == "Variant" and isinstance(v, RefV) and isinstance(self.read_loc(st, v.key, v.path), EnumV):
+            v = self.read_loc(st, v.key, v.path)
+        if k == "Variant" and isinstance(v, EnumV):
+            return self.match_enum(st, pat, v)
         if k == "Variant":
             if isinstance(v, RefV):
                 inner = self.read_loc(st, v.key, v.path)
@@ -575,6 +582,55 @@ class Interp:
             out.extend((s, False) for s in rest)
             return out
         raise Unmodelled("match pattern " + k)
+
+    def enum_payload(self, ev, variant):
+        adt = self.F.adts[ev.adt]
+        for vd in adt["variants"]:
+            if vd["name"] == variant:
+                name, elem = ev.name
+                return StructV(ev.adt, variant, {f["name"]: self.symbolic(f["t"], tuple(name) + (variant, f["name"]), elem) for f in vd["fields"]})
+        return None
+
+    def enum_lit(self, ev, variant, pol=True):
+        return ("b", ("variant", ev.adt, ev.name, variant), pol)
+
+    def match_enum(self, st, pat, ev):
+        """symbolic enum scrutinee: split on "is this variant", remembering the choice in the path condition"""
+        variant = pat["variant"]
+        adt = self.F.adts[ev.adt]
+        out = []
+        yes = self.assume(st, flit(self.enum_lit(ev, variant, True)))
+        for s in yes:
+            # exactly one variant
+            okv = True
+            for vd in adt["variants"]:
+                if vd["name"] != variant:
+                    l = self.enum_lit(ev, vd["name"], False)
+                    if not solver.feasible(s.pc, [l]):
+                        okv = False
+                        break
+                    s.pc.append(l)
+            if not okv:
+                continue
+            sv = self.enum_payload(ev, variant)
+            vals = list(sv.fields.values())
+            res = [(s, True)]
+            for sp in pat["subs"]:
+                nxt = []
+                for s0, m in res:
+                    if not m:
+                        nxt.append((s0, m))
+                        continue
+                    nxt.extend(self.match_pat(s0, sp["p"], vals[sp["f"]] if sp["f"] < len(vals) else Opaque("f")))
+                res = nxt
+            out.extend(res)
+        # not this variant: only if some other variant is still possible
+        for s in self.assume(st, flit(self.enum_lit(ev, variant, False))):
+            others = [vd["name"] for vd in adt["variants"] if vd["name"] != variant]
+            if any(solver.feasible(s.pc, [self.enum_lit(ev, o, True)]) for o in others):
+                # if exactly one other variant remains possible it is that one
+                out.append((s, False))
+        return out
 
     # ------------------------------------------------------------------ evaluation core
     def ev(self, e, st):
